@@ -78,7 +78,13 @@ class TURec(TRec):
                 ForAll([p], self._mk(*[self._acc[f](p) for f, _ in self.fields]) == p)]
 
 
+_tuple_override = {}
+def register_tuple(rec):
+    """use `rec` (e.g. a TURec) wherever a Python tuple of these component types is built"""
+    _tuple_override[rec.name] = rec
 def TTuple(*items):
+    name = 'tuple[' + ','.join(t.name for t in items) + ']'
+    if name in _tuple_override: return _tuple_override[name]
     return TRec('tuple[' + ','.join(t.name for t in items) + ']', [(f'_{i}', t) for i, t in enumerate(items)])
 def TMap(k, v):
     """dict: domain set + total value array (values outside the domain are unspecified)"""
